@@ -777,46 +777,66 @@ def predicate(T, done, convs, fails):
                 fail(key, "%s.convert(%r) -> %r: %d digits allowed" % (desc, v, out, b["length"]), e, op, v, observed=jout(out))
 
 
+_DAY = 86400 * 10 ** 6
+_EPOCH = datetime.datetime(1, 1, 1, tzinfo=datetime.timezone.utc)
+
+
+def _td_us(td):
+    return (td.days * 86400 + td.seconds) * 10 ** 6 + td.microseconds
+
+
+def dt_instant(v):                  # microseconds since 0001-01-01T00:00 UTC
+    return _td_us(v - _EPOCH)
+
+
+def dt_tod(t):                      # UTC time of day in microseconds
+    return ((t.hour * 3600 + t.minute * 60 + t.second) * 10 ** 6 + t.microsecond - _td_us(t.utcoffset())) % _DAY
+
+
+def dt_chain(T, nm, conv, v, fail, rep=None):
+    """write v, read it back (to half a millisecond), write the value read (canonical text), read again, write again (fixed point)"""
+    timeonly = isinstance(v, datetime.time)
+    measure = dt_tod if timeonly else dt_instant
+    w = call(T, conv, "unconvert", v)
+    if rep is not None:
+        rep.count((nm, repr(v)), nontrivial=(w[0] == "ok"), kind="%s.unconvert:%s" % (nm, w[0]))
+    if w[0] != "ok" or not isinstance(w[1], str):
+        fail("%s.unconvert:domain-value-refused" % nm, "%s.unconvert(%r) -> %r" % (nm, v, w), type=nm, value=repr(v))
+        return
+    r1 = call(T, conv, "convert", w[1])
+    d = None
+    if r1[0] == "ok" and r1[1] is not None:
+        d = abs(measure(r1[1]) - measure(v))
+        if timeonly:
+            d = min(d, _DAY - d)
+    if d is None or d > 500:
+        fail("%s:write-read-roundtrip" % nm, "%s: %r (utcoffset %s) written as %r reads back as %r" % (nm, v, v.utcoffset(), w[1], r1), type=nm, value=repr(v), text=w[1])
+        return
+    c = call(T, conv, "unconvert", r1[1])
+    r2 = call(T, conv, "convert", c[1]) if c[0] == "ok" else ("none",)
+    if r2[0] != "ok" or r2[1] != r1[1]:
+        fail("%s:canonical-text-reads-differently" % nm, "%s: %r reads %r, written %r, read again %r" % (nm, w[1], r1[1], c, r2), type=nm, value=repr(v), text=w[1])
+        return
+    c2 = call(T, conv, "unconvert", r2[1])
+    if c2[0] != "ok" or c2[1] != c[1]:
+        fail("%s:canonical-text-not-fixed-point" % nm, "%s: canonical %r rewritten as %r" % (nm, c[1], c2), type=nm, value=repr(v), text=c[1])
+
+
+def dt_conv(T, nm):
+    return {"DateTime": lambda: T.DateTime(), "Time": lambda: T.Time(), "ListElement(DateTime)": lambda: T.ListElement(T.DateTime(required=True)),
+            "ListElement(Time)": lambda: T.ListElement(T.Time())}[nm]()
+
+
 def datetime_clauses(T, rng, rep, fails, n):
     """C10's clauses for DateTime / Time on the implementation (the model and the theorems for these two types are the C09 engine's:
     dt_roundtrip_half_ms, tm_roundtrip_half_ms, dt_unconvert_shape, dt_convert_denotes, dt_naive_refused)."""
-    DAY = 86400 * 10 ** 6
-    EPOCH = datetime.datetime(1, 1, 1, tzinfo=datetime.timezone.utc)
-    us = lambda td: (td.days * 86400 + td.seconds) * 10 ** 6 + td.microseconds
-
-    def inst(v):                    # microseconds since 0001-01-01T00:00 UTC
-        return us(v - EPOCH)
-
-    def tod(t):                     # UTC time of day in microseconds
-        return ((t.hour * 3600 + t.minute * 60 + t.second) * 10 ** 6 + t.microsecond - us(t.utcoffset())) % DAY
-
     def fail(key, what, **kw):
         fails.append(C.Failure(key, what, dict(kind="datetime", **kw)))
 
-    def chain(nm, conv, v, measure, modulo):
-        w = call(T, conv, "unconvert", v)
-        rep.count((nm, repr(v)), nontrivial=(w[0] == "ok"), kind="%s.unconvert:%s" % (nm, w[0]))
-        if w[0] != "ok" or not isinstance(w[1], str):
-            fail("%s.unconvert:domain-value-refused" % nm, "%s.unconvert(%r) -> %r" % (nm, v, w), type=nm, value=repr(v))
-            return
-        r1 = call(T, conv, "convert", w[1])
-        d = None
-        if r1[0] == "ok" and r1[1] is not None:
-            d = abs(measure(r1[1]) - measure(v))
-            if modulo:
-                d = min(d, DAY - d)
-        if d is None or d > 500:
-            fail("%s:write-read-roundtrip" % nm, "%s: %r (utcoffset %s) written as %r reads back as %r" % (nm, v, v.utcoffset(), w[1], r1), type=nm, value=repr(v), text=w[1])
-            return
-        c = call(T, conv, "unconvert", r1[1])
-        r2 = call(T, conv, "convert", c[1]) if c[0] == "ok" else ("none",)
-        if r2[0] != "ok" or r2[1] != r1[1]:
-            fail("%s:canonical-text-reads-differently" % nm, "%s: %r reads %r, written %r, read again %r" % (nm, w[1], r1[1], c, r2), type=nm, text=w[1])
-            return
-        c2 = call(T, conv, "unconvert", r2[1])
-        if c2[0] != "ok" or c2[1] != c[1]:
-            fail("%s:canonical-text-not-fixed-point" % nm, "%s: canonical %r rewritten as %r" % (nm, c[1], c2), type=nm, text=c[1])
+    def chain(nm, conv, v, measure=None, modulo=None):
+        dt_chain(T, nm, conv, v, fail, rep)
 
+    inst, tod = dt_instant, dt_tod
     dtc, tmc = T.DateTime(), T.Time()
     ldtc, ltmc = T.ListElement(T.DateTime(required=True)), T.ListElement(T.Time())      # the repeated-element wrappers
     for k in range(n):
@@ -924,6 +944,27 @@ def run(rep, tier, rng):
 def replay(obj):
     T = types()
     r = obj["replay"]
+    if r.get("kind") == "datetime":
+        fails = []
+        fail = lambda key, what, **kw: fails.append((key, what))
+        if "value" in r and r.get("type") in ("DateTime", "Time", "ListElement(DateTime)", "ListElement(Time)") and r["value"].startswith("datetime."):
+            v = eval(r["value"], {"datetime": datetime})        # the repr of a datetime / time value written by this check
+            dt_chain(T, r["type"], dt_conv(T, r["type"]), v, fail)
+            print("replay %s round trip of %r: %s" % (r["type"], v, fails or "ok"))
+        elif "text" in r and r.get("type") in ("DateTime", "Time"):
+            conv = dt_conv(T, r["type"])
+            r1 = call(T, conv, "convert", r["text"])
+            c = call(T, conv, "unconvert", r1[1]) if r1[0] == "ok" else ("none",)
+            r2 = call(T, conv, "convert", c[1]) if c[0] == "ok" else ("none",)
+            print("replay %s.convert(%r) -> %r, written %r, read again %r   [recorded: %s]" % (r["type"], r["text"], r1, c, r2, obj.get("what")))
+            if ("bad-text" in obj.get("key", "")) == (r1[0] == "ok") or (r1[0] == "ok" and (r2[0] != "ok" or r2[1] != r1[1])):
+                fails.append((obj.get("key"), obj.get("what")))
+        else:
+            print("replay: clause %r is re-evaluated by bin/check C10" % obj.get("key"))
+            fails.append((obj.get("key"), obj.get("what")))
+        for k, wt in fails:
+            print("VIOLATION property=C10 replay=(this file) %s: %s" % (k, wt))
+        return 1 if fails else 0
     v = unjval(r["value"])
     conv = mk_elem(T, r["elem"])
     out = call(T, conv, r["op"], v)
